@@ -27,6 +27,14 @@ pub fn dispatch(ctx: &Ctx, rep: &mut Report) {
                 crate::onris::c02::run(ctx, rep);
             }
         },
+        "C03" => {
+            if fm {
+                crate::onfm::c03::run(ctx, rep);
+            }
+            if ris {
+                crate::onris::c03::run(ctx, rep);
+            }
+        },
         other => {
             eprintln!("unknown check {other}");
             std::process::exit(3);
